@@ -165,7 +165,7 @@ func Vals(t reflect.Type) []reflect.Value {
 		}
 		return append(out, all)
 	case reflect.Map:
-		kv, ev := Vals(t.Key()), Vals(t.Elem())
+		kv, ev := mapKeys(Vals(t.Key())), Vals(t.Elem())
 		m0 := reflect.MakeMap(t)
 		m1 := reflect.MakeMap(t)
 		m1.SetMapIndex(kv[1%len(kv)], ev[1%len(ev)])
@@ -241,6 +241,22 @@ func Vals(t reflect.Type) []reflect.Value {
 	return []reflect.Value{reflect.Zero(t)}
 }
 
+// mapKeys drops the values that cannot be distinct, retrievable map keys:
+// NaN (never equal to itself) and -0 (equal to +0).
+func mapKeys(vs []reflect.Value) []reflect.Value {
+	var out []reflect.Value
+	for _, v := range vs {
+		if k := v.Kind(); k == reflect.Float32 || k == reflect.Float64 {
+			f := v.Float()
+			if f != f || (f == 0 && math.Signbit(f)) {
+				continue
+			}
+		}
+		out = append(out, v)
+	}
+	return out
+}
+
 func hashable(v reflect.Value) bool {
 	defer func() { recover() }()
 	m := map[interface{}]bool{}
@@ -304,6 +320,9 @@ func Equal(a, b reflect.Value) bool {
 		if a.IsNil() || b.IsNil() {
 			return a.IsNil() == b.IsNil()
 		}
+		if !a.CanInterface() || !b.CanInterface() {
+			return true
+		}
 		var ba, bb bytes.Buffer
 		a.Interface().(value.Value).Write(&ba)
 		b.Interface().(value.Value).Write(&bb)
@@ -349,6 +368,17 @@ func Equal(a, b reflect.Value) bool {
 			return a.IsNil() == b.IsNil()
 		}
 		return Equal(a.Elem(), b.Elem())
+	case reflect.Bool:
+		return a.Bool() == b.Bool()
+	case reflect.Int, reflect.Int8, reflect.Int16, reflect.Int32, reflect.Int64:
+		return a.Int() == b.Int()
+	case reflect.Uint, reflect.Uint8, reflect.Uint16, reflect.Uint32, reflect.Uint64:
+		return a.Uint() == b.Uint()
+	case reflect.String:
+		return a.String() == b.String()
+	}
+	if !a.CanInterface() || !b.CanInterface() {
+		return false
 	}
 	return reflect.DeepEqual(a.Interface(), b.Interface())
 }
@@ -356,6 +386,9 @@ func Equal(a, b reflect.Value) bool {
 func show(v reflect.Value) string {
 	if !v.IsValid() {
 		return "<invalid>"
+	}
+	if !v.CanInterface() {
+		return fmt.Sprint(v)
 	}
 	s := fmt.Sprintf("%#v", v.Interface())
 	if len(s) > 200 {
@@ -392,6 +425,11 @@ type Result struct {
 	Checks     int         `json:"checks"`
 	Violations []Violation `json:"violations"`
 	Sample     string      `json:"sample,omitempty"`
+	Skipped    string      `json:"skipped,omitempty"`
+}
+
+func exported(name string) bool {
+	return name != "" && name[0] >= 'A' && name[0] <= 'Z'
 }
 
 const waitBudget = 20 * time.Second
@@ -460,6 +498,10 @@ func (r *runner) fail(failure, detail, what, cs string) {
 }
 
 func (r *runner) method(a Action) {
+	if !exported(a.ProxyName) {
+		r.res.Skipped = "the generated method " + a.ProxyName + " is unexported: callable only inside the generated package, not by this driver"
+		return
+	}
 	m := r.proxy.MethodByName(a.ProxyName)
 	if !m.IsValid() {
 		r.fail("proxy-method-missing", a.ProxyName, fmt.Sprintf("the generated proxy has no method %s for IDL method %s", a.ProxyName, a.IDLName), "")
